@@ -259,3 +259,10 @@ def r8(rr, repo):
     p_seek = q.func_params(seek)[1]
     unp = [n for n in walk_scope(seek) if isinstance(n, ast.Assign) and isinstance(n.targets[0], ast.Tuple) and len(n.targets[0].elts) == 2 and U(n.value) == p_seek]
     rr.ob('seek() takes a position apart as (file name, offset)', len(unp) == 1, mod, seek, key='seek-unpacks-pair')
+
+
+@rule('C14.R9', "the file a saved position names keeps its content: a roll-over never re-uses the name of an existing log file (which would truncate the very file the saved (name, offset) points into), because the new "
+                "timestamp is forced strictly above the newest listed one in whole microseconds (shares C13.R1)")
+def r9(rr, repo):
+    from .c13 import r1 as c13r1
+    c13r1(rr, repo)
